@@ -880,6 +880,9 @@ def sig_check(prop, tier):
         for i, form in enumerate(["func", "closure", "fake", "typed-unchecked", "unchecked-typed", "null-fake", "null-target"], 1):
             scen.append({"id": i, "mode": "pairs", "form": form, "types": fam["types"]})
         groups, order, _ = vlib.run_harness("sig", scen, "sig_C09")
+        # the same gate through EVERY arm of fake!: identical type accepted, another kind refused
+        n_total, ok_arms, failed, nscen, arms_, _sc = arms_pipeline(run, "C09", 1)
+        run.extra["fake_arms_gate"] = {"arms": n_total, "compiled": len(ok_arms), "scenarios": nscen}
     else:
         run.rule = ("boolean gate: %d target return types (bool, alias of bool, unsafe/extern bool functions, fn() -> bool, fn(u8) -> fn() -> bool, "
                     "Option<bool>, &bool, (bool,), Result<(), bool>, String, (), u8, *const bool, -> bool inside a parameter, Box<dyn Fn() -> bool>) x "
@@ -947,20 +950,10 @@ def sig_check(prop, tier):
 
 # =============================================================== fake! arms (C08)
 
-def arms_check(prop, tier):
+def arms_pipeline(run, prop, max_len, only_install=False):
+    """generate + build + run + validate the per-arm instantiations; returns (n_total, ok_arms, failed, n_scen)"""
     import arms as A
     import concurrent.futures, subprocess
-    run = Run(prop, tier)
-    max_len = 3 if tier == "quick" else 4
-    run.rule = ("arms = every arm of macro_rules! fake parsed from /repo/src/interface/macros.rs at check time; one generated [[bin]] per arm "
-                "(compile failures attributed by cargo --keep-going: the 'compiles' half is decided by rustc); each compiled arm runs every "
-                "script of <= %d calls over {matching, rejected} for N in 0..2 in a forked child; outcomes validated by TLC against "
-                "FakeCall(opts) (Trace_Arms); distinct = (arm, N, script)" % max_len)
-    run.assumptions = ["the arm parser recognises the matcher shape `func_type: [unsafe] [extern \"ABI\"] fn(..) -> $ret:ty | ()` followed by option keys; an arm it cannot parse is reported as inconclusive"]
-    r = tlc.check("MC_Arms", "MC_Arms", workers=4, timeout=600)
-    run.add_model(r)
-    if r["violation"]:
-        run.design_violation(r)
     arms, unparsed, n_total = A.generate(max_len)
     if unparsed or n_total != len(arms):
         raise ToolError("inconclusive: %d arm(s) of fake! not understood by the generator: %s" % (n_total - len(arms), unparsed))
@@ -969,6 +962,8 @@ def arms_check(prop, tier):
     if rc != 0 and not failed:
         raise ToolError("arms crate failed to build:\n" + out[-3000:])
     for i in sorted(failed):
+        if prop != "C08":
+            continue
         a = arms[i]
         errs = [l for l in out.splitlines() if ("arm_%02d.rs" % i) in l][:3]
         run.violation("C08 %s stage=compile" % A.arm_key(a), {"arm": a, "rustc": errs,
@@ -1017,16 +1012,95 @@ def arms_check(prop, tier):
             if sid not in tv["accepted"]:
                 reached, total = tv["progress"][sid]
                 fe = evs[reached] if reached < len(evs) else None
-                run.violation("C08 %s stage=script n=%s script=%s at=%s" % (A.arm_key(arms[i]), evs[0]["n"], evs[0]["script"], fe["ev"] if fe else None),
+                gate_event = fe is not None and (fe["ev"] in ("ArmInstalled", "ArmWrong")
+                                                 or (fe["ev"] == "ArmPanic" and fe.get("cls") == "sig-mismatch"))
+                if prop == "C09" and not gate_event:
+                    continue
+                run.violation("%s %s stage=%s n=%s script=%s at=%s" % (prop, A.arm_key(arms[i]), "gate" if gate_event else "script",
+                                                                        evs[0]["n"], evs[0]["script"], fe["ev"] if fe else None),
                               {"arm": arms[i], "events": evs, "trace_rejected_at": reached, "first_unmatched_event": fe})
-    run.extra["arms"] = {"in_source": n_total, "compiled": len(ok_arms), "failed_to_compile": len(failed), "scripts": len(scen)}
+    return n_total, ok_arms, failed, len(scen), arms, scen
+
+
+def arms_check(prop, tier):
+    import arms as A
+    import concurrent.futures, subprocess
+    run = Run(prop, tier)
+    max_len = 3 if tier == "quick" else 4
+    run.rule = ("arms = every arm of macro_rules! fake parsed from /repo/src/interface/macros.rs at check time; one generated [[bin]] per arm "
+                "(compile failures attributed by cargo --keep-going: the 'compiles' half is decided by rustc); each compiled arm runs every "
+                "script of <= %d calls over {matching, rejected} for N in 0..2 in a forked child; outcomes validated by TLC against "
+                "FakeCall(opts) (Trace_Arms); distinct = (arm, N, script)" % max_len)
+    run.assumptions = ["the arm parser recognises the matcher shape `func_type: [unsafe] [extern \"ABI\"] fn(..) -> $ret:ty | ()` followed by option keys; an arm it cannot parse is reported as inconclusive"]
+    r = tlc.check("MC_Arms", "MC_Arms", workers=4, timeout=600)
+    run.add_model(r)
+    if r["violation"]:
+        run.design_violation(r)
+    n_total, ok_arms, failed, nscen, arms, scen = arms_pipeline(run, prop, max_len)
+    run.extra["arms"] = {"in_source": n_total, "compiled": len(ok_arms), "failed_to_compile": len(failed), "scripts": nscen}
     if scen:
         run.sample({"arm": arms[scen[len(scen) // 2][0][0]], "events": scen[len(scen) // 2][1][:6]})
     return run.finish()
 
 
+# =============================================================== async (C14)
+
+def async_check(prop, tier):
+    run = Run(prop, tier)
+    run.rule = ("sequences = every sequence of %s steps of New / Fake(a,v) / Await(a, same or other thread) / Drop over 3 sibling async functions "
+                "(a1 and a2 share the output type; a1 suspends once) generated by TLC from MC_Async, replayed under a hand-written executor that "
+                "counts polls, body runs and value evaluations; plus fixed shapes (method, unit output, 256-byte output, by-reference parameter) "
+                "and the wrong-output-type refusal; validated by TLC (Trace_Async)" % ("4" if tier == "quick" else "6 (sampled)"))
+    run.assumptions = ["async functions are #[inline(never)]; their futures' poll functions are the patch targets"]
+    cfg = "MC_Async_q" if tier == "quick" else "MC_Async_t"
+    r = tlc.check("MC_Async", cfg, workers=1, timeout=3000, coverage=False)
+    run.add_model(r)
+    if r["violation"]:
+        run.design_violation(r)
+    hists = tlc.parse_replay_lines(r["prints"])
+    rnd = vlib.rnd("async")
+    # sequences without any Fake exercise nothing: keep a handful
+    withfake = [h for h in hists if any(x["act"] == "Fake" for x in h)]
+    nofake = [h for h in hists if not any(x["act"] == "Fake" for x in h)]
+    rnd.shuffle(nofake)
+    rnd.shuffle(withfake)
+    limit = 1500 if tier == "quick" else 20000
+    hists = withfake[:limit] + nofake[:40]
+    vlib.build_harness()
+    scen = [{"id": i, "mode": "seq", "steps": h} for i, h in enumerate(hists, 1)]
+    scen.append({"id": len(scen) + 1, "mode": "shapes"})
+    groups, order, _ = vlib.run_harness("asyncs", scen, "asyncs_C14", timeout=3000)
+    import concurrent.futures
+    nproc = 4
+    sl = [scen[j::nproc] for j in range(nproc)]
+
+    def val(j):
+        return tlc.validate_traces("Trace_Async", "Trace_Async", [(sc["id"], groups.get(sc["id"], [])) for sc in sl[j]], WORK,
+                                   "trace_async_%d" % j, timeout=3000)
+    with concurrent.futures.ThreadPoolExecutor(max_workers=nproc) as ex:
+        results = list(ex.map(val, range(nproc)))
+    byid = {sc["id"]: sc for sc in scen}
+    for tv in results:
+        run.states += tv["states"]
+        run.transitions += tv["transitions"]
+        run.traces += len(tv["accepted"])
+        for sid in tv["ids"]:
+            sc = byid[sid]
+            key = "shapes" if sc["mode"] == "shapes" else " ".join(
+                x["act"] + ("(%s%s)" % (x.get("a", ""), "," + x["v"] if "v" in x else "") if "a" in x else "") for x in sc["steps"])
+            run.note_case(key)
+            if sid not in tv["accepted"]:
+                evs = groups.get(sid, [])
+                reached, total = tv["progress"][sid]
+                run.violation("C14 seq=%s" % key, {"scenario": sc, "trace_rejected_at": reached,
+                                                   "first_unmatched_event": evs[reached] if reached < len(evs) else None, "events": evs})
+    run.sample({"sequence": scen[0].get("steps"), "events": [e for e in groups.get(1, []) if e["ev"] in ("Fake", "Await", "Drop")]})
+    return run.finish()
+
+
 CHECKS = {
     "C01": placement_check,
+    "C14": async_check,
     "C08": arms_check,
     "C09": sig_check,
     "C10": sig_check,
